@@ -53,8 +53,30 @@ func chordVelocities(song *smfread.Song) [][]int {
 	return r
 }
 
+// unencodableTempo: a set-tempo event holds the microseconds per quarter note, 60,000,000/bpm, in three bytes: 1..0xFFFFFF.
+// Below 4 bpm and above 60,000,000 bpm there is no such event, so the statement of C07 cannot be met by any file.
+func unencodableTempo(d Doc) (int, bool) {
+	for _, m := range d.Model(960) {
+		if m.Tempo != nil && (*m.Tempo < 4 || *m.Tempo > 60000000) {
+			return *m.Tempo, true
+		}
+	}
+	return 0, false
+}
+
 func checkC07(c C07Case) *Violation {
 	d := c.Doc
+	if bpm, bad := unencodableTempo(d); bad {
+		// the only faithful outcome is a refusal; a file stating some other tempo is different music
+		res := Run{Argv: append([]string{"write"}, d.Flags.Argv()...), Stdin: d.YAML()}.Exec()
+		if v := cleanOutcome(res); v != nil {
+			return v
+		}
+		if res.Exit == 0 {
+			return vio("tempo-unencodable-accepted", "a tempo of %d bpm (%d us per quarter note) does not fit a set-tempo event, yet `crd write` exits 0 with %d bytes\nargs=%v\n%s", bpm, 60000000/maxInt(bpm, 1), len(res.Stdout), d.Flags.Argv(), d.YAML())
+		}
+		return nil
+	}
 	_, song, err := writeDoc(d)
 	if err != nil {
 		return vio("write-failed", "%v\nargs=%v\n%s", err, d.Flags.Argv(), d.YAML())
@@ -307,6 +329,20 @@ func TestC07(t *testing.T) {
 	o := c07Opts()
 	rapid.Check(t, func(t *rapid.T) {
 		d := genDoc(o).Draw(t, "doc")
+		if coin(t, "extreme-tempo", 8) {
+			// the ends of what a set-tempo event can say, and just beyond them
+			v := rapid.SampledFrom([]int{1, 2, 3, 4, 5, 60000000, 59999999, 16777216, 1000000, 60000001, 100000000, 4294967295}).Draw(t, "extreme-bpm")
+			if len(d.Insts) > 0 && coin(t, "extreme-by-flag", 25) {
+				d.Flags.BPM = &v
+			} else {
+				d.Insts[rapid.IntRange(0, len(d.Insts)-1).Draw(t, "extreme-at")].BPM = &v
+			}
+			if _, bad := unencodableTempo(d); bad {
+				r.Class("tempo-beyond-a-set-tempo-event(must be refused)", 1)
+			} else {
+				r.Class("tempo-at-the-limits-of-a-set-tempo-event", 1)
+			}
+		}
 		c := C07Case{d}
 		c07Stats(r, d)
 		r.Sample(map[string]any{"args": d.Flags.Argv(), "yaml": d.YAML()})
